@@ -23,6 +23,7 @@ func ruleC03(c *Check) {
 	c.depositPairing("C03.2")
 	c.depositRefundGuards("C03.4")
 	c.depositPayer("C03.3")
+	c.custodyErrorsChecked("C03.5")
 }
 
 // depositInventory: every direct bank call naming DepositAccName.
@@ -326,4 +327,71 @@ func (c *Check) onlyCalledFromUnits(f *Func, units map[*Func][]*PersistPath, dep
 		}
 	}
 	return n > 0
+}
+
+// custodyErrorsChecked (C03.5, C01): inside a transaction a failing custody operation must abort the message —
+// its error is returned (tail call), or tested with the error edge leaving through a reverting return / panic.
+// Otherwise the record would be updated although no coins moved.
+func (c *Check) custodyErrorsChecked(rule string) {
+	r := c.reachSets()
+	n := 0
+	for _, f := range c.handFuncs("keeper", "service") {
+		if !r.fromHandler[f] {
+			continue
+		}
+		type verdict struct {
+			ok  bool
+			why string
+			pos token.Pos
+			op  string
+		}
+		sites := map[token.Pos]*verdict{}
+		for _, pa := range c.P.PathsOf(f) {
+			for i, ev := range pa.Events {
+				if ev.Kind != EvCall {
+					continue
+				}
+				e := c.P.classifyCall(f, ev)
+				if e == nil || e.Kind != "bank" {
+					continue
+				}
+				v := sites[ev.Pos]
+				if v == nil {
+					v = &verdict{ok: true, pos: ev.Pos, op: e.Op}
+					sites[ev.Pos] = v
+				}
+				okf := Fact{T: mk("ok", ev.Result)}
+				after := FactSet{}
+				for _, x := range pa.Events[i:] {
+					if x.Kind == EvFact {
+						after.Add(x.Fact)
+					}
+				}
+				switch {
+				case after.Has(okf):
+					// success edge: fine
+				case after.Has(okf.Not()):
+					if pa.OK() {
+						v.ok, v.why = false, "the error edge of the custody operation continues to a committing return"
+					}
+				default:
+					// untested: must be the returned error itself
+					tail := false
+					for _, rt := range pa.Ret {
+						if rt.Eq(ev.Result) {
+							tail = true
+						}
+					}
+					if !tail && f.Parent == nil {
+						v.ok, v.why = false, "the error of the custody operation is neither tested nor returned"
+					}
+				}
+			}
+		}
+		for _, v := range sites {
+			n++
+			c.req(v.ok, rule, unitConstruct(f, "custody-error:"+v.op), v.pos, "a failing custody operation aborts the message"+condStr(!v.ok, ": "+v.why))
+		}
+	}
+	c.req(n >= 6, rule, "custody-call-sites", token.NoPos, fmt.Sprintf("%d handler-reachable custody call sites", n))
 }
